@@ -425,7 +425,7 @@ def histories(ctx, thorough, rnd):
                         for o2 in obs[:4]:
                             cases.append(dict(init=H_INIT, fl=0, ev=[dict(x) for x in (o0, s1, o1, s2, o2)]))
     n_ex = len(cases)
-    nr = 3000 if thorough else 300
+    nr = 3000 if thorough else 200
     cases += [random_history(rnd, rnd.randint(4, 12)) for _ in range(nr)]
     # S->C: histories simulated by TLC from the instance model, with the answers it prescribes
     nsim = 400 if thorough else 25
@@ -510,7 +510,7 @@ def run(ctx):
     n_ex = len(cases)
     cases += gen_ctors(thorough, rnd)
     n_ct = len(cases) - n_ex
-    nr = 3000 if thorough else 600
+    nr = 3000 if thorough else 400
     DENSE[0] = thorough        # the random envelopes are also evaluated near every breakpoint
     cases += gen_new_random(rnd, nr, 10 if thorough else 6)
     DENSE[0] = False
@@ -542,7 +542,7 @@ def run(ctx):
     t1 = time.time()
     # 3. S->C: envelopes and values produced by the specification replayed on the real class
     from harness import tlc
-    nsim = 400 if thorough else 25
+    nsim = 400 if thorough else 15
     behs, r = tlc.simulate_behaviours('Env', 'Env_sim.cfg', ctx.work, num=nsim, depth=8, seed=ctx.seed + 1,
                                       timeout=900)
     ctx.cov['transitions'] += r.generated
